@@ -235,6 +235,9 @@ func (q *fakeQuerier) GetBridgesAndClaims(_ context.Context, from, to uint64) ([
 		}
 		return bs, nil, nil
 	}
+	if from <= q.l.from && to >= q.l.to { // everything: one fresh copy of each list
+		return append([]bridgesync.Bridge(nil), q.l.bridges...), append([]bridgesync.Claim(nil), q.l.claims...), nil
+	}
 	var bs []bridgesync.Bridge
 	var cs []bridgesync.Claim
 	for _, b := range q.l.bridges {
